@@ -9,6 +9,18 @@ def run(ctx):
     states, trans, detail = role1(ctx, [("MC_Modbus", "MC_Modbus_%s.cfg" % t, {"timeout": 3000})])
     cases, n = generate(ctx, "MC_Modbus", "Gen_Modbus_%s.cfg" % t, timeout=3000)
     res = harness(ctx, vh, ["c18", "--cases", cases])
+    # concurrent writers on one register map (ModbusConc.tla)
+    r1 = vlib.run_tlc(ctx.sc, "ModbusConc", "MC_ModbusConc.cfg", timeout=600)
+    r2 = vlib.run_tlc(ctx.sc, "ModbusConc", "MC_ModbusConc_split.cfg", allow_violation=True, timeout=600)
+    if not r2.violation or "OwnCoilKept" not in r2.violation:
+        raise vlib.MachineryError("ModbusConc: a coil write split into separately locked steps no longer violates OwnCoilKept")
+    detail = detail + [{"cfg": "MC_ModbusConc.cfg", "distinct": r1.distinct},
+                       {"cfg": "MC_ModbusConc_split.cfg", "must_violate": "OwnCoilKept", "violated": True}]
+    rc = harness(ctx, vh, ["c18conc", "--rounds", "20000" if t == "quick" else "300000"])
+    res["failures"] = list(res["failures"]) + list(rc["failures"])
+    res["evaluations"] += rc["evaluations"]
+    if isinstance(res.get("extra"), dict):
+        res["extra"]["concurrent_writers"] = rc.get("extra")
     cov = {
         "states": states, "transitions": trans, "role1": detail,
         "traces_validated_against_impl": res["traces"],
@@ -20,7 +32,10 @@ def run(ctx):
                 "NormalOnlyIfClean on Modbus!Process, and prints the set of acceptable responses and the register "
                 "file afterwards for each request; every request is replayed into the real PDU.ProcessRequest on a "
                 "real modbus.Regs under recover() and a watchdog. distinct_nontrivial = distinct (function, map, "
-                "observed response bytes) triples.",
+                "observed response bytes) triples. Concurrency: TLC checks ModbusConc.tla (coil write = read-modify-write of the "
+                "shared register; atomic: every owner's coil keeps what was acknowledged; split into separately locked steps: "
+                "must fail); six goroutines toggle their own coil of one register through ProcessRequest on a shared modbus.Regs "
+                "and read it back after every acknowledged write.",
         "exhaustive": True,
         "exhaustive_what": "the finite request domain of the tier's MC_Modbus config, not all byte strings",
         "samples": res["samples"],
